@@ -239,6 +239,30 @@ theorem applyUnaryOp_exact (opu : Nat → Nat) (g : Bool → Bool)
           · have p : ¬ (dofs ≤ i ∧ i < dofs + len) := by omega
             simp [c1, c2, p]
 
+/-- **In-place assignment operators** (`BooleanBuffer` `&=`, `|=`, `^=`;
+`bitwise_bin_op_assign`): whichever arm runs — in place on a uniquely owned buffer, or a copy —
+the logical result is the pointwise operation of the two operands' bit sequences, for all
+offsets of both operands. -/
+theorem bitAssign_pointwise (uniq : Bool) (op : Nat → Nat → Nat) (f : Bool → Bool → Bool)
+    (hop : ∀ a b j, j < 64 → (op a b).testBit j = f (a.testBit j) (b.testBit j))
+    (l lo r ro len : Nat) :
+    bitAssign uniq op l lo r ro len =
+      (List.range len).map (fun i => f (l.testBit (lo + i)) (r.testBit (ro + i))) := by
+  unfold bitAssign
+  cases uniq
+  · simp only [Bool.false_eq_true, if_false]
+    apply List.map_congr_left
+    intro i hi
+    exact binOpWords_pointwise op f hop l lo r ro len i (List.mem_range.mp hi)
+  · simp only [if_true]
+    apply List.map_congr_left
+    intro i hi
+    have hi' := List.mem_range.mp hi
+    rw [applyBinaryOp_exact op f hop]
+    have c : lo ≤ lo + i ∧ lo + i < lo + len := by omega
+    have e : lo + i - lo = i := by omega
+    simp [c, e]
+
 /-- non-vacuity: `&&&` is a bitwise word operation in the sense required above -/
 example : ∀ a b j : Nat, j < 64 → (a &&& b).testBit j = (a.testBit j && b.testBit j) :=
   fun a b j _ => Nat.testBit_and a b j
